@@ -81,6 +81,9 @@ struct refdec {
     bool overflow;     /* V_OK: the digits denote a number >= 2^width */
     bool canonical;    /* V_OK: the count octets are *the* encoding of value */
     bool ill_overflow; /* V_ILLEGAL: the last octet's digit also exceeds the width (a second failure class) */
+    bool ill_at_end;   /* V_ILLEGAL: the memory ends exactly behind the maximum length: "cut off by the end of
+                        * the buffer" applies too (a decoder that tests the end of the memory before the
+                        * maximum answers the cut-off code there and consumes nothing) */
 };
 
 static struct refdec
@@ -108,6 +111,7 @@ ref_dec(const unsigned char *s, size_t n, int t)
     }
     r.v = V_ILLEGAL; /* maxoct octets, every one with the continuation bit */
     r.ill_overflow = (acc >> t_width(t)) != 0;
+    r.ill_at_end = n == maxoct;
     return r;
 }
 
@@ -302,9 +306,15 @@ judge_string(int t, const struct refdec *r, const struct dobs o[3])
          * statement does not fix which code says "illegal".  Where the digits
          * read so far also exceed the type's width two failure classes apply
          * and the statement does not say which is reported first: any refusal
-         * is accepted there. */
+         * is accepted there.  Likewise where the memory ends exactly behind the
+         * maximum length (audit 6): all of it is continuation octets up to the
+         * end of the buffer, so "cut off by the end of the buffer" is true of it
+         * as well; a buffer decoder that tests "end of memory" before "maximum
+         * reached" answers the cut-off code - any refusal of the buffer decoder
+         * is accepted there (the source decoders have read the maximum and are
+         * not at an end they know of: they still owe "illegal"). */
         for (int d = 0; d < 3; ++d)
-            if (o[d].rc >= 0 || (!r->ill_overflow && o[d].rc == -ENODATA)) {
+            if (o[d].rc >= 0 || (!r->ill_overflow && !(d == 0 && r->ill_at_end) && o[d].rc == -ENODATA)) {
                 mc_fail("C14/no-terminator-illegal",
                         "%s: %zu octets without terminator, %s decoder returned %d (want an error other than the cut-off code "
                         "-ENODATA=%d)",
@@ -1556,7 +1566,10 @@ dechist_step(int t, ByteBuffer *b, unsigned char *mem, size_t size, const char *
         return DO_CUTOFF;
     case V_ILLEGAL: {
         const bool below = o <= u && o + t_max(t) <= u;
-        if (rc >= 0 || (below && !r.ill_overflow && rc == -ENODATA)) {
+        /* memory (or the fill mark, for a decoder bounded by it) ends exactly
+         * behind the maximum: the cut-off class applies too (see judge_string) */
+        const bool at_end = r.ill_at_end || o + t_max(t) == u;
+        if (rc >= 0 || (below && !r.ill_overflow && !at_end && rc == -ENODATA)) {
             mc_fail("C14/no-terminator-illegal",
                     "%s: %zu octets without terminator at offset %zu (size=%zu used=%zu), buffer decoder returned %d", TN[t],
                     t_max(t), o, size, u, rc);
